@@ -443,3 +443,28 @@ def check_tools(ctx, w, models, closure, family, sched):
             ctx.probe("multi-part-reference")
         if shared:
             ctx.probe("objects-sharing-a-span")
+
+
+RULES = {
+    "C08": "one run = one generated world (1-3 virtual files, 5 provider families, <=16 references, lists of 1-4 "
+           "distinct targets) under one drawn postponement schedule (acyclic 'after D' dependencies biased to later "
+           "elements of the same list, or a dense round map); non-trivial = some list element was still pending when "
+           "a later element of the same list resolved (the only situation in which order is at risk); distinct = "
+           "distinct (family, mode, full provider answer trace)",
+    "C09": "one run = one generated world and one dependency structure over its references (now / after D with "
+           "cycles and self-dependencies / never / dense round maps), provider-call budget N+2 per reference; "
+           "non-trivial = at least one Postponed answer was given, or the load failed as unresolvable; distinct = "
+           "distinct (family, mode, provider answer trace)",
+    "C34": "W1 worlds loaded with textx_tools_support=True; non-trivial = the closure has references and at least "
+           "one of: a multi-part reference name, nested objects sharing a span, a postponed reference; distinct = "
+           "distinct (family, mode, provider answer trace)",
+}
+ASSUMPTIONS = {
+    "C08": ["grammar family is the item template of tvsim/gen.py; names are globally unique so every list position "
+            "is attributable to one reference", "expected targets come from the generator's name table"],
+    "C09": ["dependency-based plans only for the verdict oracle; round maps are dense (every round resolves "
+            "something), because the resolver legitimately stops at a round without progress",
+            "the failure report is compared by the multiset of quoted reference names"],
+    "C34": ["object spans (_tx_position/_tx_position_end) are taken from the loaded model (their exactness is C06)",
+            "builtins are excluded (no position)"],
+}
